@@ -32,7 +32,7 @@ VALS = st.one_of(
                      'article', '100%', '\\textbf{x}', 'http://example.com/?a=1&b=2', 'x: y', '中文 é']),
     st.text(alphabet=list('abcXYZ 019&<>"\'*_[](){}#$%^~\\/|`@!?;,.+-='), min_size=1, max_size=16))
 
-CFG = gdoc.Cfg(inlines=['t', 'em', 'st', 'code', 'link', 'img', 'auto', 'esc', 'smart', 'fnref'],
+CFG = gdoc.Cfg(inlines=['t', 'em', 'st', 'code', 'link', 'img', 'auto', 'esc', 'smart', 'fnref', 'gloss', 'cite'],
                blocks=['para', 'atx', 'setext', 'hr', 'fence', 'icode', 'quote', 'list', 'table', 'figure'])
 KEYLINE = re.compile(r'^[A-Za-z0-9][A-Za-z0-9_ \t.\-]*:')
 _corpus = None
@@ -108,8 +108,6 @@ def check(case, ctx):
     ctx.cls('fmt_' + fmt)
     other = [list(t) for t in case['other']]
     ctrl = [list(t) for t in case['ctrl']]
-    if fmt != 'latex':
-        ctrl = [c for c in ctrl if c[0] != 'latex mode']
     M = meta_text(other + ctrl, case['yaml'])
 
     def conv(src, extra=0):
@@ -152,7 +150,8 @@ def check(case, ctx):
         if (d2 == c2) != (dflt == comp):
             raise Violation('R3:key-order-changes-decision', 'fmt=%s keys=%r perm=%r' % (fmt, other, perm))
     # R1b: prefix / suffix of the wrapper do not depend on the body (generated bodies only: no bibliography/glossary material)
-    if not is_corpus and other:
+    if not is_corpus and other and '[?' not in B and '[#' not in B and '[?' not in body_text(case['body2'])[0] and '[#' not in body_text(case['body2'])[0]:
+        # (glossary and bibliography entries are written into the LaTeX preamble / back matter: wrapper text that does come from the body)
         B2, _ = body_text(case['body2'])
         snip2 = conv(M + B2, EXT['SNIPPET'])
         comp2 = conv(M + B2, EXT['COMPLETE'])
